@@ -9,6 +9,6 @@ import (
 func TestReplay(t *testing.T) {
 	verif.ReplayMain(map[string]func(){
 		"HarnessAbs": HarnessAbs,
-		"HarnessOK": HarnessOK,
+		"HarnessOK":  HarnessOK,
 	})
 }
